@@ -13,15 +13,54 @@ def _key(case):
     return hashlib.sha1(json.dumps(case, sort_keys=True, default=repr).encode()).hexdigest()
 
 
-def draw_cases(strategy, n, seed, oversample=4):
+def shape_key(case):
+    """Coarse shape of a (shell model, configuration) case: near-duplicates (same port layout,
+    same features, same spelling of the selections) collapse to one."""
+    if not isinstance(case, dict) or 'sm' not in case or 'spec' not in case:
+        return _key(case)
+    from vf import gen_shell
+    try:
+        ports = tuple((p['dir'][0], p['injected'], len(p['itf']['elem']['events']) if p['itf'] else -1)
+                      for p in gen_shell.port_table(case['sm']))
+    except Exception:  # pylint: disable=broad-except
+        ports = ()
+    spec = case['spec']
+    forms = tuple('set%d' % len(spec[s][k]) if isinstance(spec[s][k], list) else spec[s][k]
+                  for s in ('prov', 'req') for k in ('sts', 'mts'))
+    extra = tuple(sorted((k, json.dumps(v, sort_keys=True, default=repr)) for k, v in case.items()
+                         if k not in ('sm', 'spec', 'semantics')))
+    return json.dumps([ports, forms, bool(spec.get('mc')), spec['origin'], len(case['sm']['enc']),
+                       sorted(case.get('semantics', {}).values()), extra], default=repr)
+
+
+def draw_stratified(strategies, n, seed, wrap=None):
+    """n distinct cases, drawn in equal parts from each strategy (every forced-feature family is
+    represented whatever Hypothesis' one_of would have favoured); `wrap` maps a strategy to the
+    strategy of full cases."""
+    per = -(-n // len(strategies))
+    out, seen = [], set()
+    for i, strat in enumerate(strategies):
+        got = draw_cases(wrap(strat) if wrap else strat, per, seed * 31 + i, key=shape_key)
+        for c in got:
+            k = shape_key(c)
+            if k not in seen:
+                seen.add(k)
+                out.append(c)
+    # interleave the strata so that a prefix of the list is still representative
+    order = sorted(range(len(out)), key=lambda j: hashlib.sha1(f'{seed}:{j}'.encode()).hexdigest())
+    return [out[j] for j in order][:n]
+
+
+def draw_cases(strategy, n, seed, oversample=4, key=None):
     seen = {}
+    key = key or _key
 
     @hypothesis.seed(seed)
     @settings(max_examples=max(n * oversample, n + 8), database=None, deadline=None,
               phases=[Phase.generate], suppress_health_check=list(HealthCheck), derandomize=False)
     @given(strategy)
     def collect(case):
-        seen.setdefault(_key(case), case)
+        seen.setdefault(key(case), case)
 
     collect()
     keys = sorted(seen, key=lambda k: hashlib.sha1(f'{seed}:{k}'.encode()).hexdigest())
